@@ -36,6 +36,7 @@ Prog(s) == CASE s.fmt = "prefixed" -> Prefixed(s.tag, Prog(s.inner))
              [] s.fmt = "dlitz" -> Dlitz(s.rounds)
              [] s.fmt = "django_pbkdf2" -> DjangoPbkdf2(s.tag, s.alg, s.rounds, s.n)
              [] s.fmt = "scrypt" -> ScryptMcf(s.rounds, s.r, s.p)
+             [] s.fmt = "scrypt7" -> ScryptSeven(s.rounds, s.r, s.p)
              [] s.fmt = "scram" -> ScramDigest(s.alg, s.rounds)
              [] s.fmt = "bcrypt" -> Bcrypt(s.tag, s.rounds, s.plen)
              [] s.fmt = "bcrypt_sha256" -> BcryptSha256(s.variant, s.rounds)
